@@ -359,12 +359,14 @@ public:
 
     GaloisFieldDict &operator/=(const integer_class &other)
     {
-        if (other == integer_class(0)) {
+        integer_class inv;
+        // other may be a non-zero multiple of the modulus, which is zero in the field
+        mp_fdiv_r(inv, other, modulo_);
+        if (inv == integer_class(0)) {
             throw DivisionByZeroError("ZeroDivisionError");
         }
         if (dict_.empty())
             return down_cast<GaloisFieldDict &>(*this);
-        integer_class inv;
         mp_invert(inv, other, modulo_);
         for (auto &arg : dict_) {
             if (arg != integer_class(0)) {
@@ -437,7 +439,10 @@ public:
 
     GaloisFieldDict &operator%=(const integer_class &other)
     {
-        if (other == integer_class(0)) {
+        integer_class rem;
+        // other may be a non-zero multiple of the modulus, which is zero in the field
+        mp_fdiv_r(rem, other, modulo_);
+        if (rem == integer_class(0)) {
             throw DivisionByZeroError("ZeroDivisionError");
         }
         if (dict_.empty())
